@@ -7,7 +7,7 @@ import itertools
 import socket
 import struct
 
-from vf.harness import use_world, outcome, freeze, sample, guarded
+from vf.harness import use_world, outcome, freeze, sample, guarded, add_histories, history_of
 from vf.simk.world import World, FD
 
 ID = "C11"
@@ -17,7 +17,9 @@ V6 = ["::", "::1", "::ffff:127.0.0.1", "fe80::1", "2001:db8::ff"]
 PORTS = [0, 1, 22, 65535]
 TCP_STATES = {"01": "ESTABLISHED", "02": "SYN_SENT", "03": "SYN_RECV", "04": "FIN_WAIT1", "05": "FIN_WAIT2",
               "06": "TIME_WAIT", "07": "CLOSE", "08": "CLOSE_WAIT", "09": "LAST_ACK", "0A": "LISTEN", "0B": "CLOSING"}
-UPATHS = [None, "/run/x", "@abstract", "/tmp/a b", "/a:b", "/tmp/é", "/tmp/a  b", "/tmp/t\tb", "/tmp/end ", "@a b  c"]
+UPATHS = [None, "/run/x", "@abstract", "/tmp/a b", "/a:b", "/tmp/é", "/tmp/a  b", "/tmp/t\tb", "/tmp/end ", "@a b  c",
+          # characters that some line splitters (not the kernel's '\n') treat as line ends
+          "/tmp/v\x0bt", "/tmp/f\x0cf", "/tmp/fs\x1cx", "/tmp/gs\x1d rs\x1e", "/tmp/nel\x85x", "/tmp/ls\u2028x"]
 KINDS = ["all", "tcp", "tcp4", "tcp6", "udp", "udp4", "udp6", "unix", "inet", "inet4", "inet6"]
 BADKINDS = ["", "TCP", "raw", None, "t", "tcp, udp", "4", 4]
 KTAB = {"all": ["tcp", "tcp6", "udp", "udp6", "unix"], "tcp": ["tcp", "tcp6"], "tcp4": ["tcp"], "tcp6": ["tcp6"],
@@ -28,17 +30,17 @@ HDR6 = b"  sl  local_address                         remote_address             
 HDRU = b"Num       RefCount Protocol Flags    Type St Inode Path\n"
 
 
-def hex4(ip):
+def hex4(ip, be=False):
     b = socket.inet_pton(socket.AF_INET, ip)           # network order bytes
-    return "%08X" % struct.unpack("<I", b)[0]         # kernel: %08X of the __be32 read as a host (LE) word
+    return "%08X" % struct.unpack(">I" if be else "<I", b)[0]         # kernel: %08X of the __be32 read as a host word
 
 
-def hex6(ip):
+def hex6(ip, be=False):
     b = socket.inet_pton(socket.AF_INET6, ip)
-    return "".join("%08X" % struct.unpack("<I", b[i:i + 4])[0] for i in range(0, 16, 4))
+    return "".join("%08X" % struct.unpack(">I" if be else "<I", b[i:i + 4])[0] for i in range(0, 16, 4))
 
 
-def render(socks):
+def render(socks, be=False):
     files = {"tcp": [HDR4], "udp": [HDR4], "tcp6": [HDR6], "udp6": [HDR6], "unix": [HDRU]}
     for n, s in enumerate(socks):
         pr = s["proto"]
@@ -50,7 +52,7 @@ def render(socks):
         else:
             hx = hex6 if pr.endswith("6") else hex4
             line = "%4d: %s:%04X %s:%04X %s %08X:%08X %02X:%08X %08X %5d %8d %d 1 0000000000000000 100 0 0 10 0" % (
-                n, hx(s["l"][0]), s["l"][1], hx(s["r"][0]), s["r"][1], s["st"], 0, 0, 0, 0, 0, 1000, 0, s["inode"])
+                n, hx(s["l"][0], be), s["l"][1], hx(s["r"][0], be), s["r"][1], s["st"], 0, 0, 0, 0, 0, 1000, 0, s["inode"])
             files[pr].append(line.encode() + b"\n")
     return {k: b"".join(v) for k, v in files.items()}
 
@@ -163,8 +165,8 @@ def mk_world(seed):
     return w, pa, pb
 
 
-def apply_case(w, pa, pb, socks, hold, ipv6=True):
-    files = render(socks)
+def apply_case(w, pa, pb, socks, hold, ipv6=True, be=False):
+    files = render(socks, be)
     for k, v in files.items():
         if k.endswith("6") and not ipv6:
             w.remove("/proc/net/" + k)
@@ -190,7 +192,21 @@ def run_case(case, st):
     import psutil
     w, pa, pb = st
     socks, hold, ipv6 = case["socks"], {int(k): v for k, v in case["hold"].items()}, case.get("ipv6", True)
-    holders = apply_case(w, pa, pb, socks, hold, ipv6)
+    be = case.get("be", False)
+    psutil._pslinux.LITTLE_ENDIAN = not be          # the host's byte order (sys.byteorder at import): tables of a big-endian host
+    try:
+        bad = _run_case(psutil, case, st, socks, hold, ipv6, be)
+    finally:
+        psutil._pslinux.LITTLE_ENDIAN = True
+    if "then" in case:
+        # the next call of the same program: whatever this one left behind must not leak into it
+        bad = bad + [("after-an-earlier-call:" + c, m) for c, m in run_case(case["then"], st)]
+    return bad
+
+
+def _run_case(psutil, case, st, socks, hold, ipv6, be):
+    w, pa, pb = st
+    holders = apply_case(w, pa, pb, socks, hold, ipv6, be)
     if not ipv6:
         socks = [s for s in socks if not s["proto"].endswith("6")]
     # holder order as psutil discovers it: ascending pid, then fd listing order
@@ -308,6 +324,8 @@ def build_cases(thorough):
                     continue
                 s = {"proto": proto, "l": [la, lp], "r": [ra, rp], "st": "01" if proto.startswith("tcp") else "07", "inode": ino}
                 cases.append({"socks": [s], "hold": {ino: [["a", 3]]}, "kinds": ["all", proto[:3] + ("6" if proto.endswith("6") else "4")]})
+                if (lp, rp) == (22, 1) or thorough:
+                    cases.append({"socks": [s], "hold": {ino: [["a", 3]]}, "kinds": ["all"], "be": True})
     # (2) every TCP state on both families; all kinds
     for st in TCP_STATES:
         for proto in ("tcp", "tcp6"):
@@ -326,6 +344,16 @@ def build_cases(thorough):
         for hs in hsets:
             cases.append({"socks": [{"proto": proto, "l": [a, 22], "r": [a, 0], "st": "0A" if proto == "tcp" else "07", "inode": ino}],
                           "hold": {ino: hs}})
+    # (4b) the same program calling again after the descriptor tables changed: a shared socket, then one holder closed it /
+    #      moved it to another descriptor / handed it to the other process
+    for proto in ("tcp", "unix"):
+        base = ({"proto": "tcp", "l": ["127.0.0.1", 22], "r": ["0.0.0.0", 0], "st": "0A", "inode": ino} if proto == "tcp" else
+                {"proto": "unix", "type": 1, "path": "/run/x", "inode": ino})
+        seqs = [([["a", 3], ["b", 3]], [["b", 3]]), ([["a", 3], ["b", 3]], [["a", 3]]), ([["a", 3]], [["a", 9]]), ([["a", 3]], [["b", 3]]),
+                ([["a", 3], ["b", 5]], [["a", 5], ["b", 3]]), ([["a", 3]], [])]
+        for h1, h2 in seqs:
+            cases.append({"socks": [base], "hold": {ino: h1}, "kinds": ["all"],
+                          "then": {"socks": [base], "hold": {ino: h2}, "kinds": ["all", "unix" if proto == "unix" else "tcp4"]}})
     # (5) mixed tables: all multisets of n sockets from a menu, all kinds + bad kinds
     menu = [
         {"proto": "tcp", "l": ["10.1.2.3", 22], "r": ["10.1.2.3", 1], "st": "01"},
@@ -354,13 +382,13 @@ def run(ctx):
     cases = build_cases(ctx.thorough)
     n = max(1, len(cases) // (ctx.ncpu * 4))
     chunks = [(ctx.seed, cases[i:i + n]) for i in range(0, len(cases), n)]
-    res = [r for ch in ctx.pmap(worker, chunks, chunk=1) for r in ch]
+    res = [r for ch in ctx.pmap_fresh(worker, chunks) for r in ch]
     viols = []
     ncalls = 0
-    for c, bad in zip(cases, res):
+    for _i, (c, bad) in enumerate(zip(cases, res)):
         ncalls += 3 * len(c.get("kinds", KINDS)) + 2 * len(c.get("badkinds", []))
         for cause, msg in bad:
-            viols.append({"cause": cause, "msg": msg, "case": c})
+            viols.append({"cause": cause, "msg": msg, "case": c, "_idx": _i})
     nf, fv = f_part(ctx)
     viols += fv
     ncalls += nf
@@ -370,7 +398,7 @@ def run(ctx):
            "tables": len(cases), "exhaustive": True, "samples": sample(cases, 5),
            "bounds": "single sockets: all address x port pairs (quick: one endpoint fixed), all 11 TCP states, unix type x path x holder sets; "
                      "mixed tables: all multisets of <= %d sockets of a 6-entry menu x all 11 kinds" % (4 if ctx.thorough else 2)}
-    return {"coverage": cov, "violations": viols,
+    return {"coverage": cov, "violations": add_histories(viols, cases, n, (lambda c: c)),
             "assumptions": ["rows are compared as sets (psutil returns list(set(...)): sockets with identical rows are indistinguishable)",
                             "an inet socket shared by several holders is attributed to any one of them",
                             "newline inside a UNIX path is outside the alphabet (the kernel's table is not injective there)"]}
@@ -382,5 +410,6 @@ def replay(ctx, case):
         return {"violated": bool(r["bad"]), "viols": r["bad"]}
     w, pa, pb = mk_world(ctx.seed)
     use_world(w)
-    bad = guarded(run_case, case, (w, pa, pb))
+    for c in history_of(case):
+        bad = guarded(run_case, c, (w, pa, pb))
     return {"violated": bool(bad), "viols": bad}
